@@ -236,6 +236,11 @@ def run(ctx):
         # model's own writer output is valid for random well-formed generations
         for i in range(ctx.scale(80, 1500)):
             spec = C10.strip_private(C10.gen_spec(rnd))
+            # (C11 speaks about syntactically valid e-mail addresses; C10's generator also writes other text there)
+            import re as _re
+            for a_ in spec["creator"]["authors"]:
+                if a_.get("email") is not None and not _re.fullmatch(r"[^@]+@[^\.]+\..+", a_["email"]):
+                    a_["email"] = "valid@example.org"
             spec["creator"]["toolVersion"] = spec["creator"]["toolVersion"] or "1"
             mo = drv.send({"op": "xml", "gen": spec})
             evals += 1
